@@ -426,9 +426,9 @@ func Dump(e *Expr) string {
 		return
 	}
 
-	var helper func(int16) (string, bool)
+	var helper func(int16, string) (string, bool)
 
-	helper = func(idx int16) (string, bool) {
+	helper = func(idx int16, indent string) (string, bool) {
 		n := e.nodes[idx]
 		if n.childCnt == 0 {
 			return dumpLeafNode(n)
@@ -438,17 +438,18 @@ func Dump(e *Expr) string {
 		sb.WriteString(fmt.Sprintf("(%v", n.value))
 
 		childIdxes := getChildIdxes(idx)
+		childIndent := indent + "  "
 
 		for _, cIdx := range childIdxes {
-			cc, isLeaf := helper(cIdx)
+			cc, isLeaf := helper(cIdx, childIndent)
 			if isLeaf {
 				sb.WriteString(fmt.Sprintf(" %s", cc))
 				continue
 			}
 
-			for _, cs := range strings.Split(cc, "\n") {
-				sb.WriteString(fmt.Sprintf("\n  %s", cs))
-			}
+			// nested expressions are produced with their indentation,
+			// so line breaks inside string literals are left alone
+			sb.WriteString(fmt.Sprintf("\n%s%s", childIndent, cc))
 		}
 		sb.WriteString(")")
 		return sb.String(), false
@@ -461,7 +462,7 @@ func Dump(e *Expr) string {
 		}
 	}
 
-	res, _ := helper(rootIdx)
+	res, _ := helper(rootIdx, "")
 	return res
 }
 
@@ -478,7 +479,7 @@ func dumpLeafNode(node *node) (string, bool) {
 	var res string
 	switch v := node.value.(type) {
 	case string:
-		res = strconv.Quote(v)
+		res = quoteStr(v)
 	case []string:
 		var sb strings.Builder
 		sb.WriteRune('(')
@@ -486,7 +487,7 @@ func dumpLeafNode(node *node) (string, bool) {
 			if idx != 0 {
 				sb.WriteRune(' ')
 			}
-			sb.WriteString(strconv.Quote(s))
+			sb.WriteString(quoteStr(s))
 		}
 		sb.WriteRune(')')
 		res = sb.String()
@@ -505,6 +506,12 @@ func dumpLeafNode(node *node) (string, bool) {
 		res = fmt.Sprint(v)
 	}
 	return res, true
+}
+
+// quoteStr prints a string the way the lexer reads it:
+// the raw text between double quotes, without escape sequences
+func quoteStr(s string) string {
+	return `"` + s + `"`
 }
 
 func max(a, b int) int {
